@@ -281,17 +281,21 @@ LATER = {
     "C07": "Also: family CW (histories through StatsdClient) and family UR (the real UDP sinks over a socket connected to a "
            "closed port: ECONNREFUSED on every other send, then a listener appears) - every call must return.",
     "C10": "Also: the usize an accepted emit returns is the metric's byte length (non-ASCII payloads).",
-    "C11": "Also: unbroken runs of 17-70 panics.",
+    "C11": "Also: unbroken runs of 17-70 panics; a panic soak of 28 000 panics over the life of one sink (own process).",
     "C13": "Also: statistics read in the middle of a history (op s: reading puts nothing on the wire), UDP sockets connected "
-           "to a closed port (family UR).",
-    "C14": "Also: statistics read in the middle of a history equal the figures of the datagrams received so far; family UR.",
+           "to a closed port (family UR); capacities above one IPv4 datagram (an emit that fits the configured capacity puts "
+           "nothing on the wire); Unix paths that cannot be socket addresses (family XL).",
+    "C14": "Also: statistics read in the middle of a history equal the figures of the datagrams received so far; families UR "
+           "and XL (sends refused before they reach the OS are dropped packets too).",
     "C15": "Also: soaks of 8-12 producers released together by a barrier (lost updates of a counter need overlapping increments).",
     "C16": "Also: a wrapped sink that answers Ok(0) (accepted: the handler stays silent); an unscripted flush of the wrapped "
-           "sink answers with an error of its own (a worker that flushes shows up in the handler's record).",
+           "sink answers with an error of its own (a worker that flushes shows up in the handler's record); failures that carry a "
+           "raw OS errno, the same one several times in a row.",
     "C17": "Also: the holder's read functions get_global_default / is_global_default_set before, between and after the sets, on "
            "the calling and on fresh threads; a macro must not flush the sink.",
     "C18": "Also: programs that format the holder with {:?} under the scheduler (a trait impl is a fourth access path); the "
-           "global holder through set_global_default / get_global_default / is_global_default_set in fresh processes.",
+           "global holder through set_global_default / get_global_default / is_global_default_set in fresh processes; two "
+           "compile-fail witnesses for the bounds of the unsafe Send/Sync impls.",
     "C19": "Also: the real buffered socket sinks with their statistics read while lines are buffered (reading is not an "
            "occasion to write).",
     "C20": "Also: Debug formatting (plain and pretty) of every sink and of the client; the writer's fault histories in both "
